@@ -123,11 +123,34 @@ static int split(char *line, char **tok, int max) {
     return n;
 }
 
+/* VH_FAR_CTX: the interface contexts are not neighbours in one array but live exactly 4 GiB apart (contexts from
+ * different mappings, or a port that passes a composite 64-bit handle): a core that keys its records by a truncated or
+ * folded context value confuses them */
+static vp_iface *far_ctx(int i) {
+    static uint8_t *base;
+    static vp_iface *slot[VP_MAX_IFACES];
+    if (!base) {
+        base = mmap(NULL, ((size_t)VP_MAX_IFACES + 1) << 32, PROT_NONE, MAP_PRIVATE | MAP_ANONYMOUS | MAP_NORESERVE, -1, 0);
+        if (base == MAP_FAILED) { perror("mmap far contexts"); exit(3); }
+    }
+    if (!slot[i]) {
+        uint8_t *p = base + ((size_t)i << 32) + 4096;
+        size_t len = (sizeof(vp_iface) + 4095) / 4096 * 4096;
+        if (mprotect(p, len, PROT_READ | PROT_WRITE) != 0) { perror("mprotect far context"); exit(3); }
+        slot[i] = (vp_iface *)p;
+        memset(slot[i], 0, sizeof(vp_iface));
+    }
+    return slot[i];
+}
+
 static vp_iface *ifc_of(const char *s) {
     int i = atoi(s);
     if (i < 0 || i >= VP_MAX_IFACES) { fprintf(stderr, "vh: bad iface %s\n", s); exit(3); }
-    vp_ifaces[i].idx = i;
-    return &vp_ifaces[i];
+    static int far = -1;
+    if (far < 0) far = getenv("VH_FAR_CTX") ? 1 : 0;
+    vp_iface *f = far ? far_ctx(i) : &vp_ifaces[i];
+    f->idx = i;
+    return f;
 }
 
 /* ------------------------------------------------------------------ input bracketing */
